@@ -464,6 +464,58 @@ func C09(c *fw.Ctx) {
 			emit(&proto.Job{ID: "sharedU/" + id, Root: "root.jst", Files: map[string][]byte{"root.jst": []byte(un.String())}, Ops: []string{"json"}, WantPhases: true})
 			emit(&proto.Job{ID: "sharedS/" + id, Root: "root.jst", Files: files, Ops: []string{"json"}, WantPhases: true, WantFiles: true})
 		}
+		// many pieces: more than a thousand INCLUDE directives in one project (each piece in a file of its own; one piece included
+		// from 1100 places; pieces eleven files deep, each included twice) - the number of pieces is no reason to refuse a project
+		for mi := 0; mi < 3; mi++ {
+			var un, sp strings.Builder
+			un.WriteString("JSIGHT 0.3\n")
+			sp.WriteString("JSIGHT 0.3\n")
+			files := map[string][]byte{}
+			switch mi {
+			case 0:
+				for q := 0; q < 1200; q++ {
+					blk := fmt.Sprintf("GET /many%d\n  200 any\n", q)
+					un.WriteString(blk)
+					sp.WriteString(fmt.Sprintf("INCLUDE m/p%d.jst\n", q))
+					files[fmt.Sprintf("m/p%d.jst", q)] = []byte(blk)
+				}
+			case 1:
+				piece := "  GET\n    200 any\n"
+				for q := 0; q < 1100; q++ {
+					head := fmt.Sprintf("URL /often%d\n", q)
+					un.WriteString(head + piece)
+					sp.WriteString(head + "  INCLUDE piece.jst\n")
+				}
+				files["piece.jst"] = []byte(piece)
+			case 2:
+				// a binary tree of files ten levels deep: 2046 INCLUDE directives are followed, the leaves hold the types
+				leaf := 0
+				var build func(depth int, name string) string
+				build = func(depth int, name string) string {
+					if depth == 10 {
+						leaf++
+						t := fmt.Sprintf("TYPE @leaf%d any\n", leaf)
+						files[name] = []byte(t)
+						return t
+					}
+					l, r := fmt.Sprintf("t%d_%s0.jst", depth, strings.TrimSuffix(strings.TrimPrefix(name, "t"), ".jst")), fmt.Sprintf("t%d_%s1.jst", depth, strings.TrimSuffix(strings.TrimPrefix(name, "t"), ".jst"))
+					files[name] = []byte("INCLUDE " + l + "\nINCLUDE " + r + "\n")
+					return build(depth+1, l) + build(depth+1, r)
+				}
+				text := build(0, "troot.jst")
+				un.WriteString(text)
+				sp.WriteString("INCLUDE troot.jst\n")
+			}
+			un.WriteString("GET /end\n  200 any\n")
+			sp.WriteString("GET /end\n  200 any\n")
+			files["root.jst"] = []byte(sp.String())
+			id := fmt.Sprintf("many-pieces-%d", mi)
+			maxMuLock.Lock()
+			shared[id] = &sharedCase{files: files, doc: []byte(un.String())}
+			maxMuLock.Unlock()
+			emit(&proto.Job{ID: "sharedU/" + id, Root: "root.jst", Files: map[string][]byte{"root.jst": []byte(un.String())}, Ops: []string{"json"}, WantPhases: true})
+			emit(&proto.Job{ID: "sharedS/" + id, Root: "root.jst", Files: files, Ops: []string{"json"}, WantPhases: true, WantFiles: true})
+		}
 		for _, name := range names {
 			d := docs[name]
 			if !d.scanOK || d.base == nil || d.base.Fatal != nil || d.base.Panic != nil {
